@@ -15,6 +15,8 @@ var libModels = map[string]libModel{}
 // libModelDocs describes each model in the trusted base.
 var libModelDocs = map[string]string{}
 
+const ordDetComp = "ORD$det"
+
 func init() {
 	bigBin := func(name, doc string, f func(a, b Term) Term) {
 		full := "(*math/big.Int)." + name
@@ -212,6 +214,50 @@ func init() {
 		r := fv.freshValue(fv.typeOf(x), "indexfunc")
 		fv.assume(e, and(le(intLit(-1), r.T), lt(r.T, args[0].Len)))
 		return r, true
+	}
+	// sorting: the elements are permuted (modelled as: forgotten), and the order of
+	// the backing array becomes a function of its element set - ordDet(s) - under the
+	// recorded assumption that the comparison is a total order on the elements.
+	sortModel := func(establishes bool) func(fv *FV, e *Env, x *ast.CallExpr, recv *Value, args []Value) (Value, bool) {
+		return func(fv *FV, e *Env, x *ast.CallExpr, recv *Value, args []Value) (Value, bool) {
+			if len(args) < 1 || args[0].K != kSlice {
+				return Value{}, false
+			}
+			st := fv.typeOf(x.Args[0])
+			if st == nil {
+				return Value{}, false
+			}
+			sl, ok := st.Underlying().(*types.Slice)
+			if !ok {
+				return Value{}, false
+			}
+			// a nil slice has no backing array: nothing is written
+			pre := e.clone()
+			fv.havocSliceElems(e, args[0], sl.Elem())
+			isNil := eq(args[0].T, tNull)
+			fv.assume(e, implies(isNil, eq(args[0].Len, intLit(0)))) // Go: a slice without a backing array is empty
+			for c, t := range e.heap {
+				if old, ok := pre.heap[c]; ok && old.S != t.S && old.Sort == t.Sort {
+					e.heap[c] = ite(isNil, old, t)
+				} else if !ok {
+					e.heap[c] = ite(isNil, fv.heapGet(pre, c, t.Sort), t)
+				}
+			}
+			if establishes {
+				cur := fv.heapGet(e, ordDetComp, arrSort(sRef, sBool))
+				fv.heapSet(e, ordDetComp, ite(isNil, cur, store(cur, args[0].T, tTrue)))
+				fv.assumptionsUsed["sort.Slice / sort.Strings / slices.Sort: the comparison is a total order on the (distinct) elements, so the sorted order depends only on the element set"] = true
+			}
+			return Value{}, true
+		}
+	}
+	for _, n := range []string{"sort.Slice", "sort.Strings", "slices.Sort", "sort.Ints"} {
+		libModelDocs[n] = "elements permuted (contents forgotten); ordDet(s) holds afterwards"
+		libModels[n] = sortModel(true)
+	}
+	for _, n := range []string{"sort.SliceStable", "slices.SortStableFunc"} {
+		libModelDocs[n] = "elements permuted (contents forgotten); ordDet(s) unchanged: ties keep the previous order"
+		libModels[n] = sortModel(false)
 	}
 	libModelDocs["slices.Clone"] = "fresh slice with equal contents"
 	libModels["slices.Clone"] = func(fv *FV, e *Env, x *ast.CallExpr, recv *Value, args []Value) (Value, bool) {
